@@ -469,6 +469,32 @@ func sweep(thorough bool) {
 			run(script{mtu: mtu, msgs: []msg{{"m", name, val(2*int(mtu)+300, 3), 1, false}, {"n", "z", val(1, 7), 1, false}}})
 		}
 	}
+	// entry-count sweep: n small service infos with distinct keys, then a value that spills over the rest of the
+	// message: every number of entries a message can hold next to the array-header boundaries 23/24 and 255/256,
+	// with the last chunk filling the message to the last byte (the spilling value takes whatever is left)
+	counts := []int{}
+	for n := 0; n <= 40; n++ {
+		counts = append(counts, n)
+	}
+	for n := 250; n <= 260; n++ {
+		counts = append(counts, n)
+	}
+	for _, mtu := range []uint16{300, 1300, 4096} {
+		for _, n := range counts {
+			for _, small := range []int{1, 3} {
+				if n*(9+small) > int(mtu)-40 {
+					continue
+				}
+				var ms []msg
+				for i := 0; i < n; i++ {
+					ms = append(ms, msg{"m", fmt.Sprintf("s%03d", i), val(small, byte(i)), 1, false})
+				}
+				ms = append(ms, msg{"m", "spill", val(2*int(mtu), 5), 1, false}, msg{"n", "z", val(1, 7), 1, false})
+				run(script{mtu: mtu, msgs: ms})
+				run(script{mtu: mtu, msgs: ms, buffered: 1000})
+			}
+		}
+	}
 	// remainders around the 256 boundary before a second key
 	for _, mtu := range []uint16{700, 1300} {
 		for _, kl := range []int{1, 24} {
@@ -516,6 +542,12 @@ func schedulesShard(shard, n int, thorough bool) *schedshard.Report {
 		}
 		sc := schedshard.Scenario{Name: s.String(), Bound: bound, Outcomes: map[string]int{}}
 		var commit func() // committed by visit: once per execution over all shards
+		v0, t0 := len(rep.Violations), time.Now()
+		budget := 6 * time.Minute
+		if thorough {
+			budget = 40 * time.Minute
+		}
+		explore.Stop = func() bool { return len(rep.Violations)-v0 >= 3 || time.Since(t0) > budget }
 		st := explore.ExploreShard(bound, shard, n, func(c *explore.Ctx) {
 			var res result
 			vres := vsync.Run(c.Choose, 20000, func() {
@@ -542,6 +574,9 @@ func schedulesShard(shard, n int, thorough bool) *schedshard.Report {
 			}
 		}, func(*explore.Ctx) { commit() })
 		sc.Executions, sc.MaxDepth = st.Executions, st.MaxDepth
+		if st.Stopped && len(rep.Violations)-v0 < 3 {
+			rep.Capped = append(rep.Capped, fmt.Sprintf("scenario %q: shard %d stopped at its wall-clock budget after %d executions", sc.Name, shard, st.Executions))
+		}
 		rep.Diverged = append(rep.Diverged, st.Diverged...)
 		rep.Scenarios = append(rep.Scenarios, sc)
 	}
@@ -564,6 +599,9 @@ func schedules(thorough bool) {
 	r.Evaluations.Add(rep.Evals)
 	for _, v := range rep.Violations {
 		r.Violation(v.Key, v.What, v.Replay)
+	}
+	for _, c := range rep.Capped {
+		r.Capped(c)
 	}
 	for _, sc := range rep.Scenarios {
 		r.States.Add(int64(sc.Executions))
